@@ -155,6 +155,37 @@ def check_c12(res):
                 res.violations.append(Violation("bytes-after-length-change-result", docline(d + x, length=len(d)),
                                                 "%s vs %s" % (a[:300], base[d][:300]), cfg))
         res.sample(lines[5])
+    # the accelerated text-block line scanner (experimental flag): every special byte sequence of a block line --
+    # closing delimiter, escaped triple quote, lone and doubled quote, backslash, line feed -- at every offset of
+    # lines that span up to four 16-byte blocks, after 0..3 leading blanks, with and without bytes behind the input
+    for cfg in ("01", "11"):
+        lines, meta = [], []
+        for lead in (b"", b" ", b"   ", b"\t "):
+            for L in range(0, 66 if thorough else 52):
+                fill = bytes(b"abcdefghijklmnop"[i % 16] for i in range(L))
+                bodies = [lead + fill,                                         # closing delimiter right after L bytes
+                          lead + fill + b'\\"""z',                              # escaped triple quote, then close
+                          lead + fill + b'" q',                                # lone quote inside the line
+                          lead + fill + b'"" q',                               # two quotes
+                          lead + fill + b"\\ q",                               # backslash
+                          lead + fill + b"\n" + lead + b"second",              # line feed, second line
+                          lead + fill + b'"\n' + lead]                         # quote as the last byte of a line
+                for b_ in bodies:
+                    d = b'"""\n' + b_ + b'"""'
+                    lines.append(docline(d)); meta.append((b_, d, None))
+                    lines.append(docline(d + b'"', length=len(d))); meta.append((b_, d, b'"'))
+        impl, model = correspond(res, cfg, "san", lines, label="text-block-line-scanner")
+        for (b_, d, suf), ln, a in zip(meta, lines, impl):
+            res.count("text-block-line")
+            res.nontrivial.add((cfg, "tbline", b_))
+            ref = refs.textblock_ref(b_ + b'"""')
+            if is_crash(a):
+                res.violations.append(Violation("scanner-crash:text-block-line", ln, a, cfg))
+            elif ref is not None and ref[1] == len(b_) + 3:
+                want = "OK str:%d:%s:%d:%s@0-%d calls=0" % (1 if b'\\"""' in b_ else 0, hexs(ref[0]), len(ref[0]), hexs(ref[0]), len(d))
+                if a != want:
+                    res.violations.append(Violation("scanner-differs-from-scalar:text-block-line", ln,
+                                                    "block %r: implementation %s, byte-at-a-time reference %s" % (b_[:70], a[:120], want[:120]), cfg))
 
 
 # =============================================================================== C04
@@ -352,6 +383,26 @@ def check_fetch_histories(res, cfg, kind):
             if tail != base or tail[:6] != ["1", "1", "idx0", "1", "1", "1"]:
                 res.violations.append(Violation(kind, sc, "literal %r: answers %s after %d string fetches, %s on fresh values"
                                                 % (s_[:40], ";".join(tail), k, ";".join(base)), cfg))
+
+
+def parse_failcount(cobs):
+    """'N[/i,j,..] <observation>' -> (N, [indices of requests that went to libc], observation)"""
+    head, ref = cobs.split(" ", 1)
+    if "/" in head:
+        n, idx = head.split("/")
+        return int(n), [int(x) for x in idx.split(",")], ref
+    return int(head), [], ref
+
+
+def fault_indices(n, libc, dense_below=80, head=40, tail=20, steps=40):
+    """request numbers to fail: all of them for short runs; otherwise the first and last ones, an even sample,
+    and EVERY libc request with its neighbours (block growth, scratch copies, tables: few, and each a distinct path)"""
+    if n <= dense_below:
+        return list(range(n))
+    ks = set(range(min(head, n))) | set(range(max(0, n - tail), n)) | set(range(head, n, max(1, n // steps)))
+    for i in libc:
+        ks.update(k for k in (i - 1, i, i + 1) if 0 <= k < n)
+    return sorted(ks)
 
 
 # =============================================================================== C07
@@ -658,10 +709,10 @@ def check_c08(res):
         fcounts = runner.run_impl(cfg, "fail", ["failcount %s" % hexs(d) for d in fdocs])
         flines = []
         for d, cobs in zip(fdocs, fcounts):
-            if is_crash(cobs) or not cobs.split(" ", 1)[1].startswith("ERR"):
+            if is_crash(cobs) or not parse_failcount(cobs)[2].startswith("ERR"):
                 continue                       # accepted without any failure: already reported above
-            n_ = int(cobs.split(" ", 1)[0])
-            for k in sorted(set(list(range(0, n_, max(1, n_ // 60))) + list(range(max(0, n_ - 12), n_)))):
+            n_, libc_, _ = parse_failcount(cobs)
+            for k in fault_indices(n_, libc_, dense_below=40, head=10, tail=12, steps=50):
                 flines.append("failat %d %s" % (k, hexs(d)))
                 flines.append("failfrom %d %s" % (k, hexs(d)))
         fimpl = runner.run_impl(cfg, "fail", flines)
@@ -923,7 +974,7 @@ def check_c05(res):
         for lit, cobs in zip(longs, counts):
             if is_crash(cobs):
                 continue
-            for k in range(int(cobs.split(" ", 1)[0])):
+            for k in range(parse_failcount(cobs)[0]):
                 for mode in ("failat", "failfrom"):
                     flines.append("%s %d %s" % (mode, k, hexs(lit.encode())))
                     fmeta.append(lit)
@@ -1679,14 +1730,20 @@ def check_c14(res):
                 res.violations.append(Violation("registry-is-not-a-map", ln, "%s expected %s" % (a, ";".join(want)), cfg))
     # external type table
     eops = []
+    # callbacks: 0 / 1 = two (equality, hash) pairs, 2 / 3 = the same equalities WITHOUT a hash callback (allowed:
+    # pointer hash), 4 = no equality callback (the registration is refused and must leave the table as it was)
     for i in (5, 21, 4294967295):
-        eops += ["r%d:0" % i, "r%d:1" % i, "u%d" % i, "l%d" % i]
+        eops += ["r%d:0" % i, "r%d:1" % i, "r%d:2" % i, "r%d:3" % i, "r%d:4" % i, "u%d" % i, "l%d" % i]
     eseqs = []
     for n in range(1, 5):
         for sq in itertools.product(eops, repeat=n):
-            if n >= 3 and rnd.random() > (0.15 if n == 3 else 0.01):
+            if n >= 3 and rnd.random() > (0.05 if n == 3 else 0.003):
                 continue
             eseqs.append(list(sq) + ["l5", "l21", "l4294967295"])
+    # every ordered pair and triple of registrations of ONE id (each entry replaced by each other one)
+    for n in (2, 3):
+        for ks_ in itertools.product("01234", repeat=n):
+            eseqs.append(["r5:%s" % k_ for k_ in ks_] + ["l5", "l21"])
     elines = ["ext " + ";".join(sq) for sq in eseqs]
     impl, model = correspond(res, "00", "san", elines, label="ext-table-ops", jobs=12)
     for sq, ln, a in zip(eseqs, elines, impl):
@@ -1696,13 +1753,16 @@ def check_c14(res):
         for op in sq:
             if op[0] == "r":
                 i, kk = op[1:].split(":")
-                d[i] = int(kk)
-                want.append("1")
+                if kk == "4":
+                    want.append("0")
+                else:
+                    d[i] = int(kk)
+                    want.append("1")
             elif op[0] == "u":
                 d.pop(op[1:], None)
                 want.append("-")
             else:
-                want.append(("k%d%d" % (d[op[1:]], d[op[1:]])) if op[1:] in d else "none")
+                want.append({0: "k00", 1: "k11", 2: "k0n", 3: "k1n"}[d[op[1:]]] if op[1:] in d else "none")
         if a != ";".join(want):
             res.violations.append(Violation("external-type-table-is-not-a-map", ln, "%s expected %s" % (a, ";".join(want)), "00"))
     # documents
@@ -1756,6 +1816,7 @@ def c16_corpus(cfg):
             b"#{" + b" ".join(("[%d]" % i).encode() for i in range(30)) + b"}",
             b"[" + b" ".join(b'"s%d\\n"' % i for i in range(40)) + b"]",
             b"1." + b"5" * 600, b"[" + b"x" * 20000 + b" 1]", b"1234567890" * 60 + b"e-590", b"0." + b"0" * 600 + b"25e601",
+            b"[" + b" ".join(b"%d" % i for i in range(400)) + b"]", b"{" + b" ".join(b":k%d [%d \"v\"]" % (i, i) for i in range(700)) + b"}",
             # duplicates that only the hash-based / sort-based strategies see (rejected in the failure-free run:
             # under a fault the result must stay an error)
             b"#{" + b" ".join(("[%d]" % (i % 19)).encode() for i in range(20)) + b"}",
@@ -1791,9 +1852,8 @@ def check_c16(res):
             if is_crash(cobs):
                 res.violations.append(Violation("crash-without-failure", "failcount %s" % hexs(d), cobs, cfg))
                 continue
-            n, ref = cobs.split(" ", 1)
-            n = int(n)
-            ks = range(n) if (n <= 80 or thorough) else sorted(set(list(range(40)) + list(range(n - 20, n)) + list(range(40, n, max(1, n // 40)))))
+            n, libc_, ref = parse_failcount(cobs)
+            ks = range(n) if thorough else fault_indices(n, libc_)
             for k in ks:
                 for mode in ("failat", "failfrom"):
                     lines.append("%s %d %s" % (mode, k, hexs(d)))
@@ -1845,6 +1905,12 @@ def check_c15(res):
         docs += [g.document(3) for _ in range(100)] + [g.corrupt(g.document(3)) for _ in range(100)]
         docs += c16_corpus(cfg)
         docs += [b"#{" + b" ".join(str(i % 900).encode() for i in range(1100)) + b"}", b"", b"  ; only a comment", b"\n\n\n]"]
+        # tokens whose length sits on / next to every fixed-size buffer and threshold the source declares: a scratch
+        # copy taken at one side of a threshold must be released at that same side
+        for L in c01_boundary_lengths():
+            for fam in c01_long_tokens(L, cfg):
+                docs.append(fam)
+                docs.append(b"[1 {:k " + fam + b"} \"x\"]")
         lines = []
         for d in docs:
             lines.append(docline(d, reg=rnd.choice(["-", "inst:0,uuid:1,fail:2"]), mode=rnd.randrange(3), eof=rnd.randrange(2)))
